@@ -965,7 +965,7 @@ func schemaLabels(s *sch.Schema, r *resolved.Schema) (nt bool, labels []string) 
 func TestRandom(t *testing.T) {
 	const sub = "random"
 	ev.SetChecks(ev.Scale(1500, 150000))
-	rapid.Check(t, func(rt *rapid.T) {
+	ev.Check(t, func(rt *rapid.T) {
 		s := sch.GenSchema(rt, sch.GenOpts{OddPct: 3})
 		r, ok := runResolve(sub, &Case{Schema: s, Op: "resolve"}, false)
 		if !ok {
@@ -1018,7 +1018,7 @@ func TestTypedPolicies(t *testing.T) {
 	const sub = "typed"
 	ev.SetChecks(ev.Scale(700, 70000))
 	extAsCall := ev.KnownOpen("C16", "nodevalue-literal-panic")
-	rapid.Check(t, func(rt *rapid.T) {
+	ev.Check(t, func(rt *rapid.T) {
 		rs := sch.GenRSchema(rt)
 		s := sch.Deresolve(rt, rs)
 		r, ok := runResolve(sub, &Case{Schema: s, Op: "resolve"}, false)
@@ -1138,6 +1138,9 @@ func TestReplay(t *testing.T) {
 	}
 	if err != nil {
 		t.Fatal(err)
+	}
+	if ev.ReplayFuzz(t, rf, fuzzProps, nil) {
+		return
 	}
 	var c Case
 	if err := json.Unmarshal(rf.Case, &c); err != nil || c.Schema == nil {
